@@ -392,7 +392,10 @@ TYPE_SHAPES = ['int', 'utf8', 'local', 'foreign', 'unresolved', 'carray', 'carra
                'carray_zero_len', 'garray', 'ptrarray', 'bytearray', 'list', 'slist', 'list_nested', 'map', 'map_bare',
                'varargs', 'array_of_array', 'noctype', 'complete_ctype', 'garray_fixed', 'ptrarray_len',
                'carray_fixed0', 'carray_fixed1', 'garray_fixed0', 'prefix_ns', 'prefix_ns_list', 'prefix_ns_array',
-               'prefix_ns_map', 'prefix_ns_noctype']
+               'prefix_ns_map', 'prefix_ns_noctype',
+               # containers whose element is itself an array / container
+               'list_of_carray', 'slist_of_bytearray', 'list_of_ptrarray', 'ptrarray_of_carray', 'garray_of_bytearray',
+               'list_of_list', 'list_of_map', 'map_value_list', 'map_value_carray', 'map_key_carray', 'map_value_ptrarray']
 
 
 def type_shape(shape):
@@ -431,6 +434,32 @@ def type_shape(shape):
         return a, True
     if shape == 'garray':
         return ast.Array('GLib.Array', INT(), ctype='GArray*'), False
+    def strv():
+        return ast.Array(None, ast.Type(target_fundamental='utf8'))        # (element-type GStrv)
+
+    def bytearr():
+        return ast.Array('GLib.ByteArray', ast.Type(target_fundamental='guint8', ctype='guint8'))
+
+    def ptrarr():
+        return ast.Array('GLib.PtrArray', ast.Type(target_fundamental='utf8'))
+
+    nested = {
+        'list_of_carray': lambda: ast.List('GLib.List', strv(), ctype='GList*'),
+        'slist_of_bytearray': lambda: ast.List('GLib.SList', bytearr(), ctype='GSList*'),
+        'list_of_ptrarray': lambda: ast.List('GLib.List', ptrarr(), ctype='GList*'),
+        'ptrarray_of_carray': lambda: ast.Array('GLib.PtrArray', strv(), ctype='GPtrArray*'),
+        'garray_of_bytearray': lambda: ast.Array('GLib.Array', bytearr(), ctype='GArray*'),
+        'list_of_list': lambda: ast.List('GLib.List', ast.List('GLib.List', ast.Type(target_fundamental='utf8')), ctype='GList*'),
+        'list_of_map': lambda: ast.List('GLib.List', ast.Map(ast.Type(target_fundamental='utf8'),
+                                                             ast.Type(target_fundamental='utf8')), ctype='GList*'),
+        'map_value_list': lambda: ast.Map(ast.Type(target_fundamental='utf8'),
+                                          ast.List('GLib.List', ast.Type(target_fundamental='utf8')), ctype='GHashTable*'),
+        'map_value_carray': lambda: ast.Map(ast.Type(target_fundamental='utf8'), strv(), ctype='GHashTable*'),
+        'map_key_carray': lambda: ast.Map(strv(), ast.Type(target_fundamental='utf8'), ctype='GHashTable*'),
+        'map_value_ptrarray': lambda: ast.Map(ast.Type(target_fundamental='utf8'), ptrarr(), ctype='GHashTable*'),
+    }
+    if shape in nested:
+        return nested[shape](), False
     if shape in ('carray_fixed0', 'carray_fixed1'):     # char data[0]; / (array fixed-size=0)
         a = ast.Array(None, ast.Type(target_fundamental='gchar', ctype='char'), ctype='char*')
         a.zeroterminated = False
@@ -995,6 +1024,8 @@ def _work_ast(task):
             part.nontrivial(repr((case['kind'], case['on'], case['text'], case['shape'])))
         if err:
             key = 'ast:%s:%s' % (case['kind'], _err_class(err))
+            if (case.get('shape') or '').startswith('map_') and 'array' in case['shape']:
+                key = 'ast:map-of-array'        # GIRParser reads only <type> children of a GLib.HashTable
             if case['kind'] == 'field-anonymous' and 'length_after' in case['on']:
                 key = 'ast:anon-member-and-array-length'     # one root cause, two symptoms (crash / length lost)
             size = (len(case['on']), repr(case))
@@ -1248,6 +1279,20 @@ def extra_scan_cases():
                           'keytag': 'anon-member-and-array-length',
                           'note': 'record with anonymous %s member %s, field data (array length=n)' % (
                               'union' if union else 'struct', pos)})
+    # containers whose element is itself an array / container, as parameter and return value
+    for atom, ann in (('GList*', '(element-type GStrv)'), ('GSList*', '(element-type GByteArray)'),
+                      ('GList*', '(element-type GLib.PtrArray)'), ('GList*', '(element-type GLib.PtrArray(utf8))'),
+                      ('GPtrArray*', '(element-type GStrv)'), ('GArray*', '(element-type GByteArray)'),
+                      ('GList*', '(element-type GLib.List(utf8))'), ('GList*', '(element-type GLib.HashTable(utf8,utf8))'),
+                      ('GHashTable*', '(element-type utf8 GLib.List(utf8))'),
+                      ('GHashTable*', '(element-type utf8 GStrv)'), ('GHashTable*', '(element-type GStrv utf8)'),
+                      ('GHashTable*', '(element-type utf8 GLib.PtrArray(utf8))'), ('GHashTable*', '(element-type utf8 GByteArray)')):
+        case = {'part': 'X', 'decls': [g.fn('foo_n', atom, [(atom, 'p')])],
+                'comments': [g.blk('foo_n', params=[('p', ann + ' (transfer none)', 'p')], ret=(ann + ' (transfer full)', 'r'))],
+                'dump': None, 'note': 'nested container %s %s' % (atom, ann)}
+        if atom == 'GHashTable*' and 'GLib.List' not in ann:
+            case['keytag'] = 'map-of-array'
+        cases.append(case)
     # direction x nullable x optional through the real annotation path
     for d_ann in ('', '(out)', '(inout)', '(out caller-allocates)', '(out callee-allocates)'):
         for n_ann in ('', '(nullable)', '(optional)', '(nullable) (optional)', '(allow-none)', '(not nullable)'):
